@@ -55,7 +55,10 @@ def _data_write_effects(f: FuncInfo, selfname="self"):
         if w.field != "data" or not (isinstance(w.recv, ast.Name) and w.recv.id == selfname):
             continue
         if w.kind == "store":
-            eff = "add" if f.name == "__init__" else "both"
+            if isinstance(w.stmt.value, (ast.Dict, ast.List)) and not (w.stmt.value.keys if isinstance(w.stmt.value, ast.Dict) else w.stmt.value.elts):
+                eff = None if f.name == "__init__" else "del"  # binding an empty container adds no member
+            else:
+                eff = "add" if f.name == "__init__" else "both"
         elif w.kind == "substore":
             eff = "both"
         elif w.kind in ("subdel", "del"):
@@ -226,9 +229,16 @@ def rule_r1(ctx):
 def _check_pkg_method(ctx, c: ClassInfo, f: FuncInfo, inst: str):
     changes = _membership_changes(ctx, c, f)
     if not changes:
+        # no direct membership change: fine when the work is delegated to the container's own tracked API
+        # (self.update(...), self[k] = v, del self[k], self.append(...)), which is checked on its own
+        deleg = [x for x in calls_in(f) if isinstance(x.func, ast.Attribute) and isinstance(x.func.value, ast.Name) and x.func.value.id == "self"]
+        subs = [n for n in own_nodes(f.node) if isinstance(n, (ast.Assign, ast.Delete))
+                and any(isinstance(t, ast.Subscript) and isinstance(t.value, ast.Name) and t.value.id == "self"
+                        for t in (n.targets if hasattr(n, "targets") else []))]
         ctx.check(
-            "R1", inst, False, f, f.node,
-            "override neither delegates to the base writer nor is disabled — cannot classify",
+            "R1", inst, bool(deleg or subs), f, f.node,
+            "override neither delegates to the base writer / the tracked API nor is disabled — cannot classify",
+            how="delegates to the container's own tracked methods (resolved and checked separately)",
         )
         return
     cfg = CFG(f.node)
@@ -687,6 +697,14 @@ def rule_r4(ctx):
         hook = repo.lookup(c, HOOK_ADD)
         ctx.require(isinstance(hook, FuncInfo), f"{ck}._set_graph missing")
         in_hook = any("producer()" in norm(n.test) for n in own_nodes(hook.node) if isinstance(n, ast.If) and _rejects(n))
+        if not in_hook:
+            # the hook may start by running a side-effect-free checker that holds the test
+            first = next((s for s in hook.node.body if not (isinstance(s, ast.Expr) and isinstance(s.value, ast.Constant))), None)
+            if isinstance(first, ast.Expr) and isinstance(first.value, ast.Call) and isinstance(first.value.func, ast.Attribute) \
+                    and norm(first.value.func.value) == "self" and [norm(a) for a in first.value.args] == [hook.params[1]]:
+                chk = repo.lookup(c, first.value.func.attr)
+                if isinstance(chk, FuncInfo) and not any(True for _ in field_writes(chk)):
+                    in_hook = any("producer()" in norm(n.test) for n in own_nodes(chk.node) if isinstance(n, ast.If) and _rejects(n))
         if in_hook:
             ctx.ob("R4", f"{c.name}._set_graph tests producer()", True, how="rejecting test inside the hook")
             continue
@@ -708,6 +726,19 @@ def rule_r4(ctx):
                             a, b = [x for x in cfg.node_of(n) if x.kind == "test"], cfg.nodes_containing(call)
                             if a and b and cfg.dominates(a[0], b[0]):
                                 ok = True
+                    # … or in a side-effect-free checker of the same class run earlier on the same value
+                    for pre in calls_in(f):
+                        if pre is call or not (isinstance(pre.func, ast.Attribute) and norm(pre.func.value) == "self"):
+                            continue
+                        chk = repo.lookup(c, pre.func.attr)
+                        if not isinstance(chk, FuncInfo) or any(True for _ in field_writes(chk)) or arg not in [norm(x) for x in pre.args]:
+                            continue
+                        pidx = [norm(x) for x in pre.args].index(arg) + 1
+                        pname = chk.params[pidx] if pidx < len(chk.params) else None
+                        has = any(isinstance(n, ast.If) and _rejects(n) and f"{pname}.producer()" in norm(n.test) for n in own_nodes(chk.node))
+                        a, b = cfg.nodes_containing(pre), cfg.nodes_containing(call)
+                        if has and a and b and cfg.dominates(a[0], b[0]):
+                            ok = True
                     ctx.check("R4", f"{c.name}.{f.name}: {norm(call)}", ok, f, call,
                               f"sets {flag} on a value without testing producer() first "
                               "(an initializer/input with a producing node)",
